@@ -544,7 +544,7 @@ fn growth_scheme() -> &'static Scheme {
         b.add_function("score", WorkFn).unwrap();
         b.add_function("lower", crate::funcs::definition(&crate::funcs::sig("lower").unwrap())).unwrap();
         b.add_function("len", crate::funcs::definition(&crate::funcs::sig("len").unwrap())).unwrap();
-        b.add_function("addi", crate::funcs::definition(&crate::funcs::sig("addi").unwrap())).unwrap();
+        b.add_function("pick", crate::funcs::definition(&crate::funcs::sig("pick").unwrap())).unwrap();
         b.build()
     })
 }
@@ -594,23 +594,23 @@ fn growth_text(shape: usize, depth: usize) -> String {
         6 => {
             let mut s = "no.such.field".to_string();
             for _ in 0..depth {
-                s = format!("addi(score(t), {s})");
+                s = format!("pick(score(t) == 1, \"x\", {s})");
             }
-            format!("{s} == 1")
+            format!("{s} == \"x\"")
         }
         7 => {
             let mut s = "nosuchfn(1)".to_string();
             for _ in 0..depth {
-                s = format!("addi(score(t), {s})");
+                s = format!("pick(score(t) == 1, \"x\", {s})");
             }
-            format!("{s} == 1")
+            format!("{s} == \"x\"")
         }
         _ => {
-            let mut s = "\"a string where an integer is required\"".to_string();
+            let mut s = "17".to_string();
             for _ in 0..depth {
-                s = format!("addi(score(t), {s})");
+                s = format!("pick(score(t) == 1, \"x\", {s})");
             }
-            format!("{s} == 1")
+            format!("{s} == \"x\"")
         }
     }
 }
